@@ -146,6 +146,7 @@ def ambient_snapshot():
         snap["dispatch_mode_stack"] = [id(m) for m in _get_current_dispatch_mode_stack()]
     except Exception:
         pass
+    snap["torch_function_state"] = str(torch._C._get_torch_function_state()) if hasattr(torch._C, "_get_torch_function_state") else str(torch._C._is_torch_function_enabled())
     snap["_ext_enabled"] = qops._ext_enabled
     snap["grad_enabled"] = torch.is_grad_enabled()
     snap["default_dtype"] = str(torch.get_default_dtype())
@@ -194,6 +195,9 @@ def ambient_reset():
     if not qops._ext_enabled:
         qops._ext_enabled = True
         cleaned.append("_ext_enabled")
+    if hasattr(torch._C, "_set_torch_function_state") and not torch._C._is_torch_function_enabled():
+        torch._C._set_torch_function_state(torch._C._TorchFunctionState.ENABLED)
+        cleaned.append("torch_function_state")
     if not torch.is_grad_enabled():
         torch.set_grad_enabled(True)
         cleaned.append("grad")
